@@ -70,6 +70,10 @@ fn socketpair_case_mode(stream: &[u8], cuts: &[usize], fds_at: &[(usize, usize)]
 fn socketpair_case_inner(stream: &[u8], cuts: &[usize], fds_at: &[(usize, usize)], mode: u8, placeholders: &mut Vec<RawFd>) -> Result<(usize, usize), String> {
     let (client, server) = UnixStream::pair().map_err(|e| e.to_string())?;
     server.set_nonblocking(true).unwrap();
+    let server_fd = {
+        use std::os::unix::io::AsRawFd;
+        server.as_raw_fd()
+    };
     let mut conn = HttpConnection::new(server);
     let mut pipes: Vec<(RawFd, RawFd)> = vec![];
     let mut next_tag = 0u8;
@@ -136,8 +140,16 @@ fn socketpair_case_inner(stream: &[u8], cuts: &[usize], fds_at: &[(usize, usize)
                 ph0 = true;
             }
             conn_reads += 1;
+            // one more call after the socket is empty (the would-block answer), then stop -
+            // whatever that call returns (an implementation may report would-block as Ok)
+            let mut avail: libc::c_int = 0;
+            unsafe {
+                libc::ioctl(server_fd, libc::FIONREAD, &mut avail);
+            }
+            let last = avail == 0;
             match util::catch(|| conn.try_read()) {
                 Err(p) => return Err(format!("try_read panicked: {}", p)),
+                Ok(Ok(())) if last => break,
                 Ok(Ok(())) => {}
                 Ok(Err(micro_http::ConnectionError::StreamReadError(_))) => break,
                 Ok(Err(e)) => return Err(format!("unexpected try_read error {:?}", e)),
